@@ -48,7 +48,7 @@ type CaseB struct {
 // ---------------------------------------------------------------------------- generator
 
 func genChunk(t *rapid.T, big *bool) []byte {
-	cls := rapid.SampledFrom([]string{"small", "small", "small", "medium", "tiny", "empty", "big", "small"}).Draw(t, "chunk_class")
+	cls := rapid.SampledFrom([]string{"small", "small", "small", "medium", "tiny", "empty", "small", "small", "medium", "small", "tiny", "small", "small", "small", "small", "small", "small", "small", "small", "big"}).Draw(t, "chunk_class")
 	var n int
 	switch cls {
 	case "empty":
@@ -239,6 +239,7 @@ func checkB(c CaseB) (v *core.Violation) {
 	for i, op := range c.Ops {
 		var sv *core.Violation
 		var skipped string
+		t0 := time.Now()
 		switch op.Op {
 		case "connect":
 			sv, skipped = x.opConnect(op)
@@ -265,6 +266,7 @@ func checkB(c CaseB) (v *core.Violation) {
 		case "pf":
 			sv, skipped = x.opPF(op)
 		}
+		opTime(op.Op, t0)
 		if skipped != "" {
 			return skip(skipped)
 		}
@@ -348,6 +350,7 @@ func (x *runB) opConnect(op OpB) (*core.Violation, string) {
 		}
 	}
 	port := x.f.live[op.Sel%len(x.f.live)]
+	t0 := time.Now()
 	c0, err := dialProxy(port)
 	if err != nil {
 		return core.V("b|connect|dial-refused", "cannot connect to live proxy %s: %v", port, err), ""
@@ -358,6 +361,8 @@ func (x *runB) opConnect(op OpB) (*core.Violation, string) {
 		return nil, "client-write-failed"
 	}
 	rep, err := cl.recv(2, true)
+	opTime("connect.greet", t0)
+	t0 = time.Now()
 	if err != nil || rep[0] != 5 || rep[1] != 0 {
 		cl.dead = true
 		return core.V("b|connect|method-reply", "greeting 05 01 00 answered with % x (%v)", rep, err), ""
@@ -368,6 +373,9 @@ func (x *runB) opConnect(op OpB) (*core.Violation, string) {
 	}
 	cl.reader = "spin"
 	tasks, ok, v := x.settle()
+	opTime("connect.request", t0)
+	t0 = time.Now()
+	defer func() { opTime("connect.answer", t0) }()
 	if v != nil {
 		return v, ""
 	}
